@@ -32,3 +32,9 @@ for _p in ("C01", "C02", "C03"):
       args={"quick": ["--oracle=" + _p], "thorough": ["--oracle=" + _p]},
       what="real BatchSpanProcessor and BatchLogRecordProcessor (with the real CircularBuffer) driven by producer / flusher / shutdown threads; oracle " + _p,
       design_ref="5/" + _p)
+
+# --- C14 ---------------------------------------------------------------------------------------
+H("c14_tracestate", "C14", "seq", ["harness/c14_tracestate.cc"],
+  what="real TraceState: all Set/Delete/Get/round-trip histories up to the depth bound from 4 start states (0,1,31,32 members) against an ordered-list model; "
+       "FromHeader over a deviation-bounded header generator against an independent W3C member parser",
+  design_ref="5/C14")
